@@ -24,12 +24,19 @@ MANIFEST = {
             "analogues; every result keeps the non-marking content (new version); is_marked(M) <-> M in get_markings under "
             "the same options (full for the repaired API combination, witness for the pinned one); inherited/descendant "
             "lookups = proper ancestors/descendants on the '.'-path tree (full for the repaired variant, witness "
-            "created/created_by_ref for the pinned startswith). Tied to /repo on every run by a correspondence run over "
+            "created/created_by_ref for the pinned startswith); the same theorems instantiated at src_cfg, the variant "
+            "translators/tr_markings.py reads from the ast of stix2/markings on every run (fail closed on unrecognised "
+            "control flow / variant sites), which must also equal the variant found by running the witnesses. Tied to /repo on every run by a correspondence run over "
             "operation sequences through functions and methods, variant selected by running the witnesses.",
     "design_ref": "DESIGN.md 6/C07-C08",
     "note": "Trusted: Coq kernel + vm_compute; the hand-written model (checked by correspondence, not translated); the "
             "harness's reference set model used as oracle. 'modified strictly later' is checked on the implementation "
-            "by the oracle (its theorem is C05's). Marking ids are well-formed marking-definition ids or language tags.",
+            "by the oracle; the theorem result_is_new_version (Props/C07Versioning.v, an OPTIONAL group built separately) carries "
+            "C05's nv_strict/nv_exact over to the new_version calls whose keyword names tr_markings reads from the source; it "
+            "imports r-c15-c05's Model/Versioning.v and Proofs/VersioningProofs.v and is not counted when those do not build "
+            "or their statements moved (evidence key bridge_to_C05). The two models are linked by the call-site fact, not by a "
+            "refinement proof. Marking ids are well-formed marking-definition ids or language tags; is_marked with several "
+            "markings is proved as behaviour and covered by correspondence, not judged by the oracle.",
     "technique": "Coq proof over a hand-written executable model + correspondence run + oracle search",
 }
 
@@ -614,12 +621,23 @@ def check(run):
         run.add_build(res, "make -C coq Props/C07.vo (coqc 8.16.1, full .vo) + Print Assumptions per theorem")
         facts = C08.source_step(run, "Props/C07Src.v", G.CFG_FIELDS)
         if facts is not None:
-            res = common.build_props("Props/C07Versioning.v")
-            run.add_build(res, "make -C coq Props/C07.vo Props/C07Src.vo Props/C07Versioning.vo (coqc 8.16.1, full .vo) "
-                               "+ Print Assumptions per theorem")
             run.coverage["new_version_changed_keys_in_source"] = facts["nv_changed"]
-        else:
-            run.coverage["obligations"] += len(common.theorems_in("Props/C07Versioning.v"))
+            # OPTIONAL GROUP: the bridge to C05 imports r-c15-c05's Model/Versioning.v and Proofs/Versioning*.v.
+            # Proofs/MarkingsVersioning.v and Props/C07Versioning.v contain nothing but the application of their
+            # lemmas, so a failure there (or in their files) means an imported statement moved: it is recorded
+            # as a note and the group is not claimed.  A failure in any other Markings* file is a broken obligation.
+            res = common.build_props("Props/C07Versioning.v")
+            fa = res.get("failed_at")
+            mine = fa and "Marking" in (fa[0] or "") and fa[0] not in ("Proofs/MarkingsVersioning.v",)
+            if res["ok"] or mine:
+                run.add_build(res, "make -C coq Props/C07.vo Props/C07Src.vo Props/C07Versioning.vo (coqc 8.16.1, full .vo) "
+                                   "+ Print Assumptions per theorem")
+                run.coverage["bridge_to_C05"] = "built" if res["ok"] else "broken in a Markings file"
+            else:
+                run.coverage["bridge_to_C05"] = "not claimed in this run: %s" % (fa[0] if fa else "build failed")
+                run.notes.append("optional group Props/C07Versioning.v (bridge to C05's new_version theorems) did not build at %s; "
+                                 "it depends on r-c15-c05's Model/Versioning.v and Proofs/VersioningProofs.v; its obligations "
+                                 "are not counted in this run" % (list(fa) if fa else "?"))
     cfg, obs = probe_variants(run)
     C08.compare_text_and_probe(run, facts, cfg, G.CFG_FIELDS)
     run.coverage["variant_selected"] = {k: cfg[k] for k in G.CFG_FIELDS if k in cfg}
